@@ -49,8 +49,8 @@ def _slices(tier):
     if not q:
         out += [
             Slice("r2-mid", [F, G, H, U, V, W], E1, 3, idx=(10,), levels=[{"mul", "index", "dot", "abs", "variable", "lt", "add"}, E2, RP], mikinds=("name", "fixed"), **kw),
-            Slice("r3", [F, G, U, V], E1, 4, idx=(10,), levels=[{"mul", "index", "abs", "variable", "add"}, {"mul", "add", "index", "dot", "variable"}, E2, RP], mikinds=("name", "fixed"), **kw),
-            Slice("r2-wide", [F, G, H, U, V, W, A, B], E1, 3, idx=(10, 11), lits=[LIT["two"]], levels=[E1, E2, RP], **kw),
+            Slice("r3", [F, G, U, V], E1, 4, idx=(10,), levels=[{"mul", "index", "abs", "variable", "add"}, {"mul", "add", "index", "dot", "variable"}, E2, RP], mikinds=("name", "fixed"), simulate=2000, depth=6, **kw),
+            Slice("r2-wide", [F, G, H, U, V, W, A, B], E1, 3, idx=(10, 11), lits=[LIT["two"]], levels=[E1, E2, RP], simulate=2000, depth=6, **kw),
         ]
     return out
 
